@@ -18,6 +18,8 @@ EXPLANATION = (
     "bytes between line starts and the CRLF found, the header faults after which parsing continues "
     "are exactly {Ok, UnsupportedValue}, every other fault is returned as ParseError(that fault). "
     "A completed request is queued at once and only pop_front removes it, so requests preceding a fault are delivered. "
+    "The incremental parsers refuse a request only for a closed table of (error built, deciding test) pairs -- a line that cannot fit, "
+    "a declared length above the limit, a header-line fault, internal guards -- and nothing outside them builds a ParseError. "
     "Decides these clauses for all inputs; the whole-stream 'if and only if' is not decided."
 )
 TRUSTED = ["slice indexing, str::from_utf8, String::from", "request::find returns the first occurrence"]
